@@ -845,7 +845,8 @@ def identify(ctx, x, constants=[], tol=None, maxcoeff=1000, full=False,
 
     if constants:
         if isinstance(constants, dict):
-            constants = [(ctx.mpf(v), name) for (name, v) in sorted(constants.items())]
+            # (a name may be a formula: it is used as an operand)
+            constants = [(ctx.mpf(v), _operand(name)) for (name, v) in sorted(constants.items())]
         else:
             namespace = dict((name, getattr(ctx,name)) for name in dir(ctx))
             constants = [(eval(p, namespace), _operand(p)) for p in constants]
